@@ -19,7 +19,8 @@ import (
 // admin listener takes. For the remote endpoint the public keys of
 // cfg.Remote.AccessControl are extracted from the base64 DER certificates with
 // the same loop replaceRemoteAdminServer uses (skipped for entries whose keys
-// were already extracted).
+// were already extracted). The admin.api module routers are provisioned with
+// the active context, as run() does after the endpoint has started.
 func VerifAdminHandler(cfg *AdminConfig, addr NetworkAddress, remote bool) (http.Handler, error) {
 	if cfg == nil {
 		cfg = &AdminConfig{Listen: DefaultAdminListen}
@@ -39,9 +40,14 @@ func VerifAdminHandler(cfg *AdminConfig, addr NetworkAddress, remote bool) (http
 		}
 	}
 	h := cfg.newAdminHandler(addr, remote, Context{})
-	// newAdminHandler remembers module routers for later provisioning; the
-	// harness builds many handlers, so do not let that list grow.
-	cfg.routers = nil
+	// newAdminHandler remembers the admin.api module routers so that run()
+	// can provision them once the endpoint is up; do the same here, with
+	// the active context, so that routes contributed by linked modules
+	// behave as they do in a running server (this also empties the list).
+	if err := cfg.provisionAdminRouters(ActiveContext()); err != nil {
+		cfg.routers = nil
+		return nil, fmt.Errorf("provisioning admin routers: %v", err)
+	}
 	return h, nil
 }
 
